@@ -2,6 +2,8 @@ package main
 
 import (
 	"fmt"
+	"go/token"
+	"go/types"
 	"sort"
 	"strings"
 
@@ -14,6 +16,7 @@ func init() {
 			a.globalEffects("E.globals")
 			a.globalAppends("E.global-append")
 			a.globalEscapes("E.global-args")
+			a.globalChannels("E.global-chan")
 		})
 }
 
@@ -290,11 +293,14 @@ var readArgs = map[string]bool{
 	"(*github.com/coyim/constbn.Int).ExpB": true, "(*github.com/coyim/constbn.Int).SetBigInt": true,
 }
 
-func (a *An) globalEscapes(rule string) {
+func (a *An) globalEscapes(rule string) { a.globalEscapesOn(rule, nil) }
+
+// globalEscapesOn: the same restricted to a set of functions (nil: all).
+func (a *An) globalEscapesOn(rule string, only map[*ssa.Function]bool) {
 	R := a.R
 	seen := map[string]bool{}
 	for _, f := range a.C.FuncSeq {
-		if isInitFn(a, f) {
+		if isInitFn(a, f) || (only != nil && !only[f]) {
 			continue
 		}
 		for _, b := range f.Blocks {
@@ -358,7 +364,11 @@ func (a *An) globalEscapes(rule string) {
 		keys = append(keys, k)
 	}
 	sort.Strings(keys)
-	R.Floor(rule, 5)
+	if only == nil {
+		R.Floor(rule, 5)
+	} else {
+		R.Floor(rule, 1)
+	}
 }
 
 // phiAlternatives: the values that can flow into v through phis (v itself when it is none).
@@ -375,4 +385,59 @@ func phiAlternatives(v ssa.Value, d int) []ssa.Value {
 		out = append(out, phiAlternatives(e, d+1)...)
 	}
 	return out
+}
+
+// globalChannels: no function (outside initialisation) sends on, receives from, selects on or closes a channel held in a
+// package-level variable: such a channel is a quota, a queue or a signal shared by every conversation of the process.
+func (a *An) globalChannels(rule string) {
+	R := a.R
+	n := 0
+	isGlobalChan := func(v ssa.Value) (string, bool) {
+		p := a.C.AddrPath(v)
+		if strings.HasPrefix(p, "global:") || strings.Contains(p, "global:") {
+			return p, true
+		}
+		return p, false
+	}
+	for _, f := range a.C.FuncSeq {
+		if f.Blocks == nil || isInitFn(a, f) {
+			continue
+		}
+		cnt := map[string]int{}
+		for _, b := range f.Blocks {
+			for _, in := range b.Instrs {
+				var chans []ssa.Value
+				what := ""
+				switch x := in.(type) {
+				case *ssa.Send:
+					chans, what = []ssa.Value{x.Chan}, "send"
+				case *ssa.UnOp:
+					if x.Op == token.ARROW {
+						chans, what = []ssa.Value{x.X}, "receive"
+					}
+				case *ssa.Select:
+					for _, st := range x.States {
+						chans = append(chans, st.Chan)
+					}
+					what = "select"
+				case *ssa.Call:
+					if bi, ok := x.Call.Value.(*ssa.Builtin); ok && (bi.Name() == "close" || bi.Name() == "len" || bi.Name() == "cap") && len(x.Call.Args) == 1 {
+						if _, isChan := x.Call.Args[0].Type().Underlying().(*types.Chan); isChan {
+							chans, what = []ssa.Value{x.Call.Args[0]}, bi.Name()
+						}
+					}
+				}
+				for _, ch := range chans {
+					n++
+					p, glob := isGlobalChan(ch)
+					R.Check(!glob, rule, ordinalKey("chan|"+a.C.alias(f)+"|"+what+"|"+p, cnt), "channel operations involve no package-level channel", a.C.InstrPos(in),
+						what+" on "+p+": a channel shared by every conversation of the process")
+				}
+			}
+		}
+	}
+	R.Extra["channel_operations_seen"] = n
+	if n == 0 {
+		R.Ok(rule, "chan|none", "the two packages contain no channel operation outside initialisation", "")
+	}
 }
